@@ -695,18 +695,16 @@ class C20(Prop):
                 out.append(op)
             return out
 
-        try:
-            ops()
-        except AssertionError as e:
-            sig, in_lib = lib_exception_sig(e)
-            if not sig.endswith("op.py:__init__"):
-                raise
-            # Op.product joins the symbols with blanks, and r"b^\dagger" "+" "b..." (SHO raising operator, spin "+",
-            # SHO symbol) is then read as the single symbol r"b^\dagger + b": the term cannot be expressed as an Op at all
-            # (symbol ambiguity of the Op class, subject of C15; nothing reaches the MPO builder)
-            r.rejected = "Op cannot express the term: 'b^\\dagger' '+' 'b...' is parsed as the single symbol 'b^\\dagger + b'"
-            r.nontrivial = False
-            return r
+        amb_sym = r"b^\dagger + b"
+        for t in terms:
+            joined = " ".join(o[1] for o in t["ops"])
+            if joined.count(amb_sym) > sum(o[1].count(amb_sym) for o in t["ops"]):
+                # Op.product joins the symbols with blanks; r"b^\dagger" "+" "b..." (SHO raising operator, spin "+", SHO
+                # symbol) is then read as the single symbol r"b^\dagger + b" and Op.__init__ raises: the term cannot be
+                # expressed as an Op at all (symbol ambiguity of the Op class, subject of C15; nothing reaches the builder)
+                r.rejected = "Op cannot express the term: 'b^\\dagger' '+' 'b...' is parsed as the single symbol 'b^\\dagger + b'"
+                r.nontrivial = False
+                return r
         calls = []
         orig = sm.bipartite_vertex_cover
 
